@@ -112,7 +112,10 @@ theorem parseLoop_safe (cfg : Config) (hcfg : cfg.layers = []) (data : Bytes) (f
         induction ks with
         | nil => intro mm; rfl
         | cons k ks ihk => intro mm; simp [mapLayerKeys, lookupLayer, hcfg, mapLayerEntries, ihk]
-      rw [hmap]
+      -- whether or not the layer was recognised, the mapping step returns its input (no layer mappings)
+      have hstep : ∀ (b : Bool) (mm : FlowMsg), (if b = true then mapLayerKeys cfg data offset encap next.keys mm else Except.ok mm) = .ok mm := by
+        intro b mm; cases b <;> simp [hmap]
+      rw [hstep]
       simp only
       apply ih
       -- the measure decreases
